@@ -64,6 +64,10 @@ def plan(tier, seed):
             cases.append(dict(key=f"uniform/{fam}/n={n}", kind="uniform", fam=fam, n=n, seed=seed, cost=4))
         for tf in ("rotated", "sheared", "affine"):
             cases.append(dict(key=f"uniform/{fam}/n=3/{tf}", kind="uniform", fam=fam, n=3, tf=tf, seed=seed, cost=4))
+    # regions that carry second derivatives (hess=True) on uniform grids of quadratic cells: straight cells and grids whose
+    # cells are all the SAME curved cell (every horizontal edge bent the same way / the same off-centre mid-side node)
+    for shape in ("straight", "rotated", "wavy", "offcentre"):
+        cases.append(dict(key=f"uniform-hessian/quad8/{shape}", kind="uniform-hess", shape=shape, seed=seed, cost=3))
     return cases
 
 
@@ -495,5 +499,40 @@ def run(case):
             c.cmp("mixed/matrix", "uniform vs general: mixed-field matrix", res[1][1], res[0][1], 1e-12)
         if np.asarray(Ru.dV).shape[-1] != 1:
             c.notes.append("uniform region stores per-cell arrays")
+        return c.result(dict(case=case["key"], cells=int(mesh.ncells)))
+    if kind == "uniform-hess":
+        base = fem.Rectangle(a=(0, 0), b=(2.0, 1.5), n=(4, 3))
+        mesh = base.add_midpoints_edges()
+        P = mesh.points.copy()
+        hx, hy = 2.0 / 3, 1.5 / 2
+        # mid-side nodes of the horizontal edges: x at half a cell width, y on a grid line
+        onh = np.isclose((P[:, 0] / hx) % 1.0, 0.5) & np.isclose((P[:, 1] / hy) % 1.0 * ((P[:, 1] / hy) % 1.0 - 1.0), 0.0)
+        if case["shape"] == "wavy":
+            P[onh, 1] += 0.12 * hy
+        elif case["shape"] == "offcentre":
+            P[onh, 0] += 0.1 * hx
+        elif case["shape"] == "rotated":
+            P = P @ zoo.rot2(0.4).T + 0.2
+        mesh = fem.Mesh(P, mesh.cells, mesh.cell_type)
+        Rg = fem.RegionQuadraticQuad(mesh, hess=True)
+        Ru = fem.RegionQuadraticQuad(mesh, hess=True, uniform=True)
+        c.trans += 2
+        # the grid really is uniform: the general region has identical cells
+        spread = max(np.abs(Rg.dhdX - Rg.dhdX[..., :1]).max(), np.abs(Rg.dV - Rg.dV[:, :1]).max())
+        if spread > 1e-12:
+            c.bad("precondition", "harness: cells of the grid are not identical", float(spread), 0)
+            return c.result(dict(case=case["key"]))
+        c.cmp("dV", "uniform region dV vs general", np.broadcast_to(Ru.dV, Rg.dV.shape), Rg.dV, 1e-12)
+        c.cmp("dhdX", "uniform region dhdX vs general", np.broadcast_to(Ru.dhdX, Rg.dhdX.shape), Rg.dhdX, 1e-12)
+        c.cmp("d2hdXdX", "uniform region second derivatives of the shape functions vs general", np.broadcast_to(Ru.d2hdXdX, Rg.d2hdXdX.shape), Rg.d2hdXdX, 1e-10)
+        # a field sampling x (the position itself): its second derivative is zero; a quadratic: constant hessian where representable
+        for lab, vals in (("position", P.copy()), ("generic", zoo.offarr(seed, 1150, P.shape))):
+            hg = fem.Field(Rg, dim=2, values=vals.copy()).hess()
+            hu = fem.Field(Ru, dim=2, values=vals.copy()).hess()
+            c.trans += 2
+            if lab != "position":
+                c.cmp(f"hess/{lab}", "Field.hess() on the uniform region vs the general region", np.broadcast_to(hu, np.shape(hg)), hg, 1e-10)
+            if lab == "position" and np.abs(hu).max() > 1e-9:
+                c.bad("hess/position/zero", "second derivative of the position field on the uniform region", float(np.abs(hu).max()), 0, 1e-9)
         return c.result(dict(case=case["key"], cells=int(mesh.ncells)))
     raise ValueError(kind)
